@@ -55,6 +55,9 @@ type genOpts struct {
 	// dataObjects: some tasks declare a data output (a declared data object of the process) and write it with
 	// DoWithObjects; conditions read it through getDataObject(...)
 	dataObjects bool
+	// throws: a quarter of the programs get one or two intermediate throw events (no event definition) in front of a
+	// task / exclusive gateway; every token that reaches one passes it
+	throws bool
 	// slowPoints: schedule points at which the arriving goroutine is kept for `slowFor` while everything else runs on
 	// (e.g. a completion monitor that is slow to subscribe: whatever was started before it must wait for it)
 	slowPoints []string
@@ -65,7 +68,7 @@ func genOptsC01(idx int, tier string) genOpts {
 	o := genOpts{
 		kinds:     []string{"task", "task", "seq", "seq", "xor", "xor", "par", "par", "incl", "loop", "sub"},
 		tailCtask: true,
-		maxNodes:  14, maxDepth: 3, undeclared: true, dataObjects: true,
+		maxNodes:  14, maxDepth: 3, undeclared: true, dataObjects: true, throws: true,
 	}
 	if tier == "thorough" {
 		o.maxNodes = 26
@@ -266,6 +269,11 @@ func runProgCase(out *rec.Out, fam string, idx int, rng *rec.Rng, tier string, s
 		stats["implicit_end"]++
 	} else {
 		ge.g.Wrap(top)
+	}
+	if o.throws && rng.Fork().Intn(4) == 0 {
+		if k := ge.g.InsertThrows(rng.Fork().Intn); k > 0 {
+			stats["programs_with_throw_events"]++
+		}
 	}
 	vars := map[string]any{}
 	varsInt := map[string]int{}
